@@ -538,7 +538,11 @@ class ExprMixin:
                 if not self.feasible(s2):
                     continue
                 if take_head:
-                    out.append((s2, v))
+                    if not is_and and isinstance(v.t, TOpt):
+                        v2 = sym.opt_val(v)  # `x or y` returns x only when x is truthy, hence not None
+                        out.append((s2, v2))
+                    else:
+                        out.append((s2, v))
                 else:
                     out.extend(self.ev(rest, s2))
         return out
